@@ -150,12 +150,16 @@ impl ErrorMessages {
             };
             e.location = e.compose_location(source);
 
-            assert!(
-                e.location.is_some(),
-                "span {:?} is out of bounds of the source (len = {})",
-                e.span,
-                source.len()
-            );
+            if e.location.is_none() {
+                // The span is out of bounds of the source. Report the error without a
+                // location rather than panicking while reporting an error.
+                log::debug!(
+                    "span {:?} is out of bounds of the source (len = {})",
+                    e.span,
+                    source.len()
+                );
+                continue;
+            }
             e.display = e.compose_display(source_path.clone(), &mut cache);
         }
         self
